@@ -27,7 +27,12 @@ PREAMBLE2 = em.PREAMBLE + 'Require Fsic.Fortran.FSolve Fsic.Linker.Linker.\nRequ
 K_NAME = ('K_access (Eval.eval_pass / Eval.solve_seq_M on PrimFloat vs the real generated _evaluate, solve_t and solve of '
           'parser-built models: values, status, iterations, outcome, hook events, access sequence of every pass; second engine: '
           'Fortran/FSolve.w_solve_t vs the real FortranEngine.solve_t over gfortran-compiled code on every call that ends before '
-          'the compiled loop: infeasible period, bad min/max_iter, out-of-span offset, pre-existing non-finite values)')
+          'the compiled loop: infeasible period, bad min/max_iter, out-of-span offset, pre-existing non-finite values; linkers: '
+          'Linker.linker_solve_t_M with the generated pass of every submodel vs BaseLinker.solve_t; label entry points: '
+          'SolveAll.solve_period_M / solve_M with SolveAllSpan.locate_span vs solve_period / solve on list, tuple, range, NumPy-array '
+          'and pandas-Index spans.  K is deliberately STRICTER than the oracle: it compares the exact access sequence of every pass, '
+          'which of several applicable up-front rejections wins, and the class of the chained exception; a rewrite that preserves the '
+          'property but changes one of these surfaces as `no-failing-input-found`, never as an oracle failure)')
 RULE = ('C01-grammar scripts (1-3 equations, lags/leads <= 3, parameters, errors, nested + - * / **, unary minus, max/min/abs, '
         'conditional expressions with and/or/not, exp/log, occasionally an indexed left-hand side) x span lengths '
         'LAGS+LEADS+1 .. +4 x (a) _evaluate(t) at every t in both spellings, wrapped ones included, (b) solve_t(t) at every '
@@ -57,6 +62,7 @@ ASSUMPTIONS = ['parser-built model without verbatim code; solve_t_before / solve
                'every variable array has the span\'s length (container invariant, C09)',
                'the instance-level lags / leads are at least the deepest lag / furthest lead of the equations (C03)',
                't lies inside the span (-n <= t < n)',
+               'a user who assigns model.lags / model.leads BELOW what the equations need has redefined the model\'s lags: outside the premise prog_lags <= lags d of the positive theorems (witness C04_lowered_instance_lags_refuted); such cases are judged by K and the frame clauses only',
                'entry-point theorems (solve / iter_periods, model Solver/SolveAll.v): every label of the span resolves to its own position (locate_ok; true of spans without repeated labels)',
                'Fortran engine (model Fortran/FSolve.v): the lags / leads compiled into the module are the instance-level ones; the values matrix is rectangular with one column per period']
 EXHAUSTIVE = {'quick': False, 'thorough': True}
